@@ -672,15 +672,34 @@ func RuleD4(which ...string) Rule {
 						}
 						key := fmt.Sprintf("computeY(sign):outcome[choose_largest=%d is_largest=%d]", cv, iv)
 						total++
-						ret, _, why := core.Walk(fn, abs)
+						ret, path, why := core.Walk(fn, abs)
 						if ret == nil {
 							c.Und("D4", key, fn.Pos(), "cannot evaluate: "+why)
 							continue
 						}
+						// what is returned: the root itself (possibly through the result of root.Neg(root), which is root),
+						// negated in place exactly when a Neg(root, root) was executed on this path
+						negs := 0
+						var negCall *ssa.Call
+						otherWrite := false
+						for _, call := range callsOnPath(path, func(cc *ssa.CallCommon) bool { return len(cc.Args) > 0 && cc.Args[0] == ssa.Value(root) && !cc.IsInvoke() }) {
+							f := core.Callee(call.Common())
+							switch {
+							case core.IsMethod(f, "bls12-381/fr", "Element", "Neg") && len(call.Call.Args) == 2 && call.Call.Args[1] == ssa.Value(root):
+								negs++
+								negCall = call
+							case f != nil && gnarkObservers[f.Name()]:
+							default:
+								otherWrite = true
+							}
+						}
 						got := "other"
-						if ret.Results[0] == ssa.Value(root) {
+						retIsRoot := ret.Results[0] == ssa.Value(root) || (negCall != nil && ret.Results[0] == ssa.Value(negCall))
+						switch {
+						case otherWrite || !retIsRoot || negs > 1:
+						case negs == 0:
 							got = "root"
-						} else if call, ok := ret.Results[0].(*ssa.Call); ok && core.IsMethod(core.Callee(call.Common()), "bls12-381/fr", "Element", "Neg") && call.Call.Args[0] == ssa.Value(root) && call.Call.Args[1] == ssa.Value(root) {
+						case negs == 1:
 							got = "negated root"
 						}
 						want := "negated root"
@@ -831,40 +850,17 @@ func derivesFromParam(v ssa.Value, name string) bool {
 
 // d4SubgroupOperand: the Legendre symbol is taken of 1 - A*x^2 for the function's argument x.
 func (c *Ctx) d4SubgroupOperand(fn *ssa.Function, leg *ssa.Call) {
-	// res.Sub(&one, &ax_sq); ax_sq.Square(&x); ax_sq.Mul(&ax_sq, &CurveParams.A); one.SetOne()
-	res := leg.Call.Args[0]
-	var sub *ssa.Call
-	for _, ci := range findCalls(fn, staticIs("bls12-381/fr", "Element", "Sub")) {
-		if ci.Common().Args[0] == res {
-			sub = ci.(*ssa.Call)
+	// term evaluation of the field operations that precede the Legendre call (straight-line code)
+	var blocks []*ssa.BasicBlock
+	for _, b := range fn.Blocks {
+		if b == leg.Block() || b.Dominates(leg.Block()) {
+			blocks = append(blocks, b)
 		}
 	}
-	ok := false
-	var facts []string
-	if sub != nil && core.Precedes(fn, sub, leg) {
-		one, axsq := sub.Call.Args[1], sub.Call.Args[2]
-		oneSet, squared, mulA := false, false, false
-		for _, ci := range core.CallsIn(fn) {
-			call, isCall := ci.(*ssa.Call)
-			if !isCall {
-				continue
-			}
-			f := core.Callee(call.Common())
-			switch {
-			case core.IsMethod(f, "bls12-381/fr", "Element", "SetOne") && call.Call.Args[0] == one:
-				oneSet = core.Precedes(fn, call, sub)
-			case core.IsMethod(f, "bls12-381/fr", "Element", "Square") && call.Call.Args[0] == axsq:
-				squared = core.PathOf(call.Call.Args[1]) == "&p:x" && core.Precedes(fn, call, sub)
-			case core.IsMethod(f, "bls12-381/fr", "Element", "Mul") && call.Call.Args[0] == axsq:
-				a, b := core.PathOf(call.Call.Args[1]), core.PathOf(call.Call.Args[2])
-				isA := func(p string) bool { return strings.HasSuffix(p, "CurveParams.A") }
-				mulA = ((call.Call.Args[1] == axsq && isA(b)) || (call.Call.Args[2] == axsq && isA(a))) && core.Precedes(fn, call, sub)
-			}
-		}
-		ok = oneSet && squared && mulA
-		facts = []string{"res = one - ax_sq", "one.SetOne()", "ax_sq = x^2 * CurveParams.A"}
-	}
-	c.Check(ok, "D4", "subgroupCheck:operand", leg.Pos(), "the Legendre symbol is not taken of 1 - a*x^2 of the argument x", facts...)
+	state, _ := symEval(fn, blocks, curveTermOps("&p:x"))
+	got := state[leg.Call.Args[0]]
+	want := "sub(1,mul(A,sq(x)))"
+	c.Check(got == want, "D4", "subgroupCheck:operand", leg.Pos(), fmt.Sprintf("the Legendre symbol is taken of %q, not of 1 - a*x^2 of the argument x (%q)", got, want), "Legendre of "+want)
 }
 
 // d4MaxInit: maxEvalPointInsideDomain is initialised to VectorLength-1 and nothing else.
